@@ -42,7 +42,7 @@ var c19Templates = []c19Template{
 	{"match-changes-c", map[string]any{"$match": map[string]any{"a": 1}, "c": map[string]any{"y": 9}}, false},
 	{"child-changes-defaults", map[string]any{"defaults": map[string]any{"cpu": 8}}, true},
 	{"doc-with-nested-merge-host", map[string]any{"a": 1, "c": map[string]any{"$merge": "p", "x": 1}, "p": map[string]any{"v": "A"}}, false},
-	{"cross-doc-into-nested-host", map[string]any{"p": map[string]any{"v": "B"}, "y": map[string]any{"$replace": map[string]any{"$match": map[string]any{"a": 1}, "$path": "c"}}, "w": []any{map[string]any{"$merge": []any{map[string]any{"a": 1}, "c"}}, 0}}, false},
+	{"cross-doc-into-nested-host", map[string]any{"p": map[string]any{"v": "B"}, "y": map[string]any{"$replace": map[string]any{"$match": map[string]any{"a": 1}, "$path": "c"}}, "w": []any{map[string]any{"$replace": []any{map[string]any{"a": 1}, "c"}}}}, false},
 	{"evaluated-key-collides", map[string]any{"name": "svc", "svc": "literal", `$"{name}"`: "interpolated"}, false},
 	{"cross-doc-replace-list", map[string]any{"y": map[string]any{"$replace": []any{map[string]any{"a": 1}, "c"}}, "l": []any{[]any{map[string]any{"$merge": map[string]any{"$match": map[string]any{"a": 1}, "$path": "c"}, "z": 0}}}}, false},
 }
